@@ -183,6 +183,11 @@ def explore(ctx):
             desc["glyphOrder"] = [g["name"] for g in desc["glyphs"]]
             kw["useProductionNames"] = True
             ctx.klass("renamed through public.postscriptNames (collision + literal de-duplicated name)")
+        if i % 6 == 4 and len(desc["glyphs"]) >= 2:
+            # a stored glyph order that names glyphs twice (the second mention is ignored): still one metric per glyph
+            base = [g["name"] for g in desc["glyphs"]]
+            desc["glyphOrder"] = base[:-1] + [base[len(base) // 2]] + base[-1:] + [base[0], base[-1]]
+            ctx.klass("stored glyph order naming a glyph twice")
         case = {"font": jsonable(desc), "flavor": flavor, "lib": lib, "vertical": vertical, "options": jsonable(kw)}
         try:
             tt = (ufo2ft.compileTTF if flavor == "ttf" else ufo2ft.compileOTF)(build_font(desc, lib), **kw)
